@@ -65,6 +65,15 @@ def echo_bytes(xid, body=b''):
   return bytes([1, 2, n >> 8, n & 255, (xid >> 24) & 255, (xid >> 16) & 255, (xid >> 8) & 255, xid & 255]) + body
 
 
+def _repack(msg):
+  # the recorder must not fail where POX's own handlers would not: a decoded message that its own validator refuses to re-encode
+  # (e.g. a packet-in whose total_len is smaller than its data) is recorded without bytes
+  try:
+    return msg.pack()
+  except Exception:
+    return None
+
+
 def h_controller(ctx, n):
   core = env.get_core()
   import socket as realsocket
@@ -87,7 +96,7 @@ def h_controller(ctx, n):
   flag = []
   delivered = {id(conA): [], id(conB): []}
   for c in cons:
-    c.handlers = [(lambda con, msg, t=t: delivered[id(con)].append((t, msg.pack()))) for t in range(len(c.handlers))]
+    c.handlers = [(lambda con, msg, t=t: delivered[id(con)].append((t, _repack(msg)))) for t in range(len(c.handlers))]
   conA.unpackers = Counting(conA.unpackers, n // 8 + 2, flag)
   data = ctx.bytes('data', n)
   b1 = echo_bytes(0x11111111, b'ab'); b2 = echo_bytes(0x22222222)
@@ -117,6 +126,7 @@ def h_controller(ctx, n):
       for a, b in conA.unpackers.spans:
         ctx.check('frames are contiguous', a == consumed)
         ctx.check('decoder consumed exactly the declared length', ((data[a + 2] << 8) | data[a + 3]) == b - a)
+        ctx.check('no message of an unsupported version is decoded (a HELLO of another version is tolerated)', ctx.Or(data[a] == 1, data[a + 1] == 0))
         consumed = b
       # every decoded frame whose type has a handler slot is delivered exactly once (types without one are logged and skipped)
       nh = len(conA.handlers)
@@ -148,7 +158,7 @@ def h_switch(ctx, n, big=False):
   flag = []
   for i, w in enumerate(workers):
     c = sw.OFConnection(w)
-    c.set_message_handler(lambda con, msg, i=i: got[i].append((msg.header_type, msg.pack())))
+    c.set_message_handler(lambda con, msg, i=i: got[i].append((msg.header_type, _repack(msg))))
     conns.append(c)
   conns[0].unpackers = Counting(conns[0].unpackers, 2 * (n // 4 + 2), flag)
   # the read loop may also spin without ever dispatching: budget on looks at the receive buffer
